@@ -253,7 +253,7 @@ func ruleZ2(c *Ctx, id string) {
 				cl := bwdSources(src)
 				for v := range cl {
 					if call, isC := v.(*ssa.Call); isC {
-						cal := call.Call.StaticCallee()
+						cal := staticCallee(call)
 						if cal == V.AllocBlock || cal == V.indbmap {
 							ok = true
 						}
@@ -273,7 +273,7 @@ func ruleZ2(c *Ctx, id string) {
 				// FreeBlock(x) after, where x derives from BnumGet(buf, off)
 				getSame := func(g ssa.Value) bool {
 					gc, ok := g.(*ssa.Call)
-					return ok && gc.Call.StaticCallee() == V.BnumGet && recvOf(gc) == buf && argN(gc, 0) == off
+					return ok && staticCallee(gc) == V.BnumGet && recvOf(gc) == buf && argN(gc, 0) == off
 				}
 				isFree := func(in ssa.Instruction) bool {
 					if !callTo(V.FreeBlock)(in) {
@@ -288,7 +288,7 @@ func ruleZ2(c *Ctx, id string) {
 						// the block is one of several results of the recursive shrink
 						a = ex.Tuple
 					}
-					if rc, ok := a.(*ssa.Call); ok && rc.Call.StaticCallee() == indshrink {
+					if rc, ok := a.(*ssa.Call); ok && staticCallee(rc) == indshrink {
 						return getSame(stripConv(argN(rc, 1)))
 					}
 					return false
@@ -329,11 +329,11 @@ func ruleZ2(c *Ctx, id string) {
 			}
 			// (b) pointer read from an indirect block (directly or through the recursive shrink)
 			var get *ssa.Call
-			if gc, ok := a.(*ssa.Call); ok && gc.Call.StaticCallee() == V.BnumGet {
+			if gc, ok := a.(*ssa.Call); ok && staticCallee(gc) == V.BnumGet {
 				get = gc
 			}
-			if rc, ok := a.(*ssa.Call); ok && rc.Call.StaticCallee() == indshrink {
-				if gc, ok := stripConv(argN(rc, 1)).(*ssa.Call); ok && gc.Call.StaticCallee() == V.BnumGet {
+			if rc, ok := a.(*ssa.Call); ok && staticCallee(rc) == indshrink {
+				if gc, ok := stripConv(argN(rc, 1)).(*ssa.Call); ok && staticCallee(gc) == V.BnumGet {
 					get = gc
 				}
 			}
@@ -649,7 +649,7 @@ func ruleZ3(c *Ctx, id string) {
 						continue
 					}
 					for v := range bwdAll(base) {
-						if cl, ok := v.(*ssa.Call); ok && cl.Call.StaticCallee() == V.bmap && cl.Parent() == f {
+						if cl, ok := v.(*ssa.Call); ok && staticCallee(cl) == V.bmap && cl.Parent() == f {
 							inlineStart = cl
 						}
 					}
@@ -728,7 +728,7 @@ func freshSlice(c *Ctx, v ssa.Value, d int) (bool, string) {
 		if bi, ok := x.Call.Value.(*ssa.Builtin); ok && bi.Name() == "append" {
 			return freshSlice(c, x.Call.Args[0], d+1)
 		}
-		cal := x.Call.StaticCallee()
+		cal := staticCallee(x)
 		if cal == nil {
 			return false, "dynamic call result"
 		}
@@ -808,7 +808,7 @@ func ruleZ10(c *Ctx, id string) {
 				ok := false
 				form := symOf(sc.Fn, lf)
 				if cl, isC := lf.(*ssa.Call); isC {
-					if cal := cl.Call.StaticCallee(); cal != nil && cal.Name() == "RoundUp" && len(cl.Call.Args) == 2 {
+					if cal := staticCallee(cl); cal != nil && cal.Name() == "RoundUp" && len(cl.Call.Args) == 2 {
 						if k, isk := constInt(cl.Call.Args[1]); isk && k == 4096 {
 							ok = true
 						}
